@@ -149,6 +149,10 @@ impl SingleSubRaiser<'_, '_> {
 
             RIKind::Standard(IKind::InterruptLabel) => {
                 let interrupt = plain_args.next().unwrap();
+                // an interrupt label takes a constant; anything else (e.g. a register) only has instruction syntax
+                if matches!(&interrupt, ast::Expr::Var(var) if matches!(var.name, ast::VarName::Reg { .. })) {
+                    return Err(CannotRaiseIntrinsic);
+                }
                 emit_stmt(stmt_interrupt!(rec_sp!(Span::NULL => as kind, #interrupt)));
             },
 
